@@ -45,4 +45,13 @@ theorem fact_filterlogs_guards :
        "log.Topics[i]==topic",
        "!match"] := by decide +kernel
 
+/-- the event system's context (an interface value shared by the requests of all clients and the event loop) is
+written under the index lock, used by nobody but the event loop — which reads it between `Lock` and `Unlock`
+(`fact_uninstall_shape`) — and no method copies the struct (finding F22: `WithContext` wrote it bare while the event loop
+and two value-receiver methods read it: a data race on a two-word value) -/
+theorem fact_context_guarded :
+    Gen.eventSysWithContext = ["Lock", "ctx-assign", "Unlock"] ∧
+    Gen.eventSysValueReceivers = [] ∧
+    Gen.eventSysCtxUsers = ["EventSystem.WithContext", "EventSystem.eventLoop"] := by decide +kernel
+
 end Evermint.Facts.EventSys
